@@ -373,7 +373,9 @@ def r8_10(ctx):
     try:
         en = Enumerator(fnode)
         wdef = en.defs.pop("width", None)
-        P = [resolve(p_, keep=("width",)) for p_ in en.run()]
+        from ..yieldpaths import feasible as _feasible810
+        # a conditional expression inside a value that is used twice forks at each use; paths that take the same test both ways are infeasible
+        P = [q_ for q_ in (resolve(p_, keep=("width",)) for p_ in en.run()) if _feasible810(q_)]
     except Unsupported as u:
         raise AnalysisError(f"Bar.__rich_console__: statement outside the path normal form ({u}); the width clause cannot be decided")
     ctx.check(wdef is not None and isinstance(wdef, ast.Call) and norm(wdef.func) == "min" and any(norm(z) == "options.max_width" for z in wdef.args), f.fq, norm(wdef) if wdef is not None else "?", f.where, "bar width capped by options.max_width", "Bar's width is not min(..., options.max_width)")
@@ -394,6 +396,8 @@ def r8_10(ctx):
     def flat(e):
         if isinstance(e, ast.BinOp) and isinstance(e.op, ast.Add):
             return flat(e.left) + flat(e.right)
+        if isinstance(e, ast.Constant) and e.value == "":
+            return []  # `x + ""`: the arm of a conditional expression that adds nothing
         return [e]
 
     def muldiv(e, num, den, inv=False):
@@ -467,6 +471,17 @@ def r8_10(ctx):
             ok = isinstance(text, ast.BinOp) and isinstance(text.op, ast.Mult) and {norm(text.left), norm(text.right)} == {"' '", "width"}
             ctx.check(ok, f.fq, norm(text)[:120], f.where, "the empty bar is exactly `width` spaces", "Bar: the empty bar is not ' ' * width")
             continue
+        # a conditional expression that was not forked (it sits inside a value substituted as a whole) is decided by the path's facts
+        class _Pick(ast.NodeTransformer):
+            def visit_IfExp(self, node):
+                self.generic_visit(node)
+                tv = facts.get(norm(node.test))
+                if tv is True:
+                    return node.body
+                if tv is False:
+                    return node.orelse
+                return node
+        text = _Pick().visit(text)
         items = flat(text)
         k = [i for i, it in enumerate(items) if isinstance(it, ast.Subscript) and isinstance(it.slice, ast.Slice)]
         if len(k) != 1 or k[0] == 0 or k[0] != len(items) - 2:
